@@ -46,18 +46,18 @@ def main():
             from checks.simcheck import run_check
             live_replay = is_live_replay(a.replay)
             from checks import bdqcheck
-            bdq_replay = a.prop == "C03" and bdqcheck.is_bdq_replay(a.replay)
+            bdq_replay = a.prop in ("C03", "C15") and bdqcheck.is_bdq_replay(a.replay)
             rc = 0 if (live_replay or bdq_replay) else run_check(a.prop, props.SIM[a.prop], tier, seed, replay=a.replay)
-            if rc != 2 and a.prop == "C03" and (bdq_replay or not a.replay):
+            if rc != 2 and a.prop in ("C03", "C15") and (bdq_replay or not a.replay):
                 # BETDAQ half: the other exchange order class (BetdaqOrder, BetdaqExecution, polled order stream)
                 import json
-                out = bdqcheck.run_check(tier, seed, replay=a.replay if bdq_replay else None)
+                out = bdqcheck.run_check(tier, seed, replay=a.replay if bdq_replay else None, prop=a.prop)
                 if isinstance(out, int):
                     rc = out
                 elif bdq_replay:
                     rc = out["rc"]
                 else:
-                    path = os.path.join(ROOT, "evidence", "C03.json")
+                    path = os.path.join(ROOT, "evidence", "%s.json" % a.prop)
                     with open(path) as f:
                         ev = json.load(f)
                     ev["coverage"]["betdaq"] = {"design_runs": out["design"]["runs"], "model_behaviours_replayed_into_impl": out["e2"], "traces": out["traces"], "steps": out["steps"],
@@ -70,7 +70,7 @@ def main():
                     ev["wall_s"] = round(ev["wall_s"] + time.time() - out["t0"], 2)
                     with open(path, "w") as f:
                         json.dump(ev, f, indent=1, default=str)
-                    print("C03 %s (BETDAQ half): design %d states, %d traces (%d steps) validated, %d violations, %d known-finding hits, %d model behaviours replayed (%d differ), drift %d" % (
+                    print(a.prop + " %s (BETDAQ half): design %d states, %d traces (%d steps) validated, %d violations, %d known-finding hits, %d model behaviours replayed (%d differ), drift %d" % (
                         tier, out["design"]["states"], out["traces"], out["steps"], len(out["unexplained"]), sum(len(v) for v in out["explained"].values()), out["e2"]["behaviours"], out["e2"]["mismatching"], out["drift"]))
                     rc = max(rc, out["rc"])
             if rc != 2 and a.prop in ("C03", "C10", "C15", "C20") and (live_replay or (not a.replay)):
